@@ -181,13 +181,33 @@ func VHAvlSortedBB() {
 			}
 		}
 	}
-	t := NewOrdered[int]()
+	// a counting comparator: the balance is what makes Add, Remove and Contains O(log n), so each
+	// call may invoke the comparator only a small multiple of the depth bound times
+	calls := 0
+	t := New(func(a, b int) int {
+		calls++
+		switch {
+		case a < b:
+			return -1
+		case a > b:
+			return 1
+		}
+		return 0
+	})
+	budget := func(size int) int { return 3*(c01bMaxHeight(size)+2) + 2 }
 	for m, i := range order {
+		calls = 0
 		t.Add(vals[i])
+		vAssert(calls <= budget(m+1), "sorted input (public API): Add invokes the comparator O(log n) times")
 		c01bCheck(&t, false, m+1, "sorted input (public API), after Add")
+		calls = 0
+		vAssert(t.Contains(vals[i]), "sorted input (public API): an added value is found")
+		vAssert(calls <= budget(m+1), "sorted input (public API): Contains invokes the comparator O(log n) times")
 	}
 	for m, i := range order {
+		calls = 0
 		vAssert(t.Remove(vals[i]), "sorted input (public API): every value can be removed again")
+		vAssert(calls <= budget(n-m), "sorted input (public API): Remove invokes the comparator O(log n) times")
 		c01bCheck(&t, false, n-m-1, "sorted input (public API), after Remove")
 	}
 	vCover("bb sorted inserts done")
@@ -299,4 +319,67 @@ func VHAvlChurn() {
 	if n >= 4 && rounds >= 2 {
 		vCover("churn: >= 4 values, >= 2 rounds")
 	}
+}
+
+// VHAvlCost: what the balance is for. On a tree of 64 values (sorted, reversed or zig-zag
+// insertion order) every Add, Contains and Remove may invoke the comparator at most twice the
+// depth bound (plus slack) times; an implementation that searches or rebalances in time
+// proportional to the size fails this by a wide margin. Only the exported API is used.
+func VHAvlCost() {
+	n := vParam("NCOST")
+	pat := vChoose("pattern", 3)
+	vals := make([]int, n)
+	for i := range vals {
+		vals[i] = vInt("s")
+		if i > 0 {
+			vAssume(vals[i-1] < vals[i])
+		}
+	}
+	order := make([]int, 0, n)
+	switch pat {
+	case 0:
+		for i := 0; i < n; i++ {
+			order = append(order, i)
+		}
+	case 1:
+		for i := n - 1; i >= 0; i-- {
+			order = append(order, i)
+		}
+	case 2:
+		for lo, hi := 0, n-1; lo <= hi; lo, hi = lo+1, hi-1 {
+			order = append(order, lo)
+			if hi != lo {
+				order = append(order, hi)
+			}
+		}
+	}
+	calls := 0
+	t := New(func(a, b int) int {
+		calls++
+		switch {
+		case a < b:
+			return -1
+		case a > b:
+			return 1
+		}
+		return 0
+	})
+	budget := func(size int) int { return 2*(c01bMaxHeight(size)+2) + 2 }
+	for m, i := range order {
+		calls = 0
+		t.Add(vals[i])
+		vAssert(calls <= budget(m+1), "cost: Add invokes the comparator O(log n) times")
+	}
+	for _, i := range []int{0, 1, n / 3, n / 2, n - 2, n - 1} {
+		calls = 0
+		vAssert(t.Contains(vals[i]), "cost: a stored value is found")
+		vAssert(calls <= budget(n), "cost: Contains invokes the comparator O(log n) times")
+	}
+	for m, i := range order {
+		calls = 0
+		vAssert(t.Remove(vals[i]), "cost: a stored value can be removed")
+		vAssert(calls <= budget(n-m), "cost: Remove invokes the comparator O(log n) times")
+	}
+	vAssert(t.Len() == 0, "cost: the tree is empty again")
+	vCover("avl cost done")
 }
